@@ -70,7 +70,8 @@ claim('C13', 'model_checking',
       'one past, gaps, below, above), name tables over multi-unit sections, and every order of first touches of the unit cache followed by a probe '
       'at every offset; the operational bisect model is proved equal to the declarative lookup on the specification; each case is replayed.',
       'trusts TLC and the transcription of DWARF 6.1/7.19/7.21; 32-bit format tables, aligned sets only (padding origin is not fixed by the standard '
-      'for unaligned sets), no overlapping or zero-length ranges', 'DESIGN.md 5/C13')
+      'for unaligned sets: parameterised, the library\'s choice is asserted only with C13_UNALIGNED=section), no overlapping or zero-length ranges; which publication of a '
+      'repeated name wins is not fixed either (C13_DUP_POLICY=last asserts the present choice)', 'DESIGN.md 5/C13')
 claim('C15', 'model_checking',
       'TLA+ verdef/verneed/versym writers with displacement-linked placement patterns and the chain walker machine (spec/Versions.tla) model-checked by '
       'TLC (ChainFollowsLinks, IndexResolution, HasIndexes, progress); emitted ELF images replayed into the GNUVer* sections through five '
@@ -110,7 +111,7 @@ claim('C06', 'model_checking',
       'checks scan/split/interpreter properties on the specification; each case is replayed; unwind tables are compared as functions '
       'location -> rules; 772 (quick) / 5157 (thorough) corpus entries are re-interpreted inside TLC.',
       'trusts TLC and the transcription of DWARF5 6.4/7.24 and the LSB .eh_frame chapter; operands < 2^21; DW_EH_PE_indirect/datarel etc. and the 64-bit '
-      '.eh_frame length form are outside the quantifier', 'DESIGN.md 5/C06')
+      '.eh_frame length form are outside the quantifier; records after an .eh_frame terminator are set-valued (LSB 10.6.1 vs 10.6.1.1)', 'DESIGN.md 5/C06')
 claim('C08', 'model_checking',
       'TLA+ REL/RELA/MIPS64 decode, the RELR anchor/bitmap machine, the psABI recipe table over Wide arithmetic and the apply machine '
       '(spec/Reloc.tla) model-checked by TLC (DecodeRoundTrip, RelrMachineIsDenotation, RelrRoundTrip, ApplyTouchesOnlyField, ApplyIsFold); emitted '
